@@ -137,6 +137,7 @@ class WatermarkPoolSink(PoolSink):
     # This sink is already shutting down
     if self.state == ChannelState.Closed:
       self._current_size -= 1
+      do_close = True
     # One of the underlying sinks failed, shut down
     elif sink.state == ChannelState.Closed:
       self._current_size -= 1
